@@ -53,6 +53,7 @@ SIG = {
     "lbfgsb": "L_BFGS_B.solve|result-altered",
     "ls": "LS.solve|result-altered",
     "ls_default": "LS.solve|default-jacfun-None-raises",
+    "lm_descent": "LM.solve|objective-increases-or-acceptance-rule",
 }
 
 F = Fraction
@@ -1275,10 +1276,182 @@ def case_ls(meta):
                 impl_fail=fail, signature=SIG["ls"] if fail else "")
 
 
+
+# ------------------------------------------------------------------------------------------
+# third deepening round: LM descent / acceptance rule, CGLS-PCGLS exit paths, PCGLS = CGLS(A P^-1)
+# ------------------------------------------------------------------------------------------
+def _lm_family(meta):
+    if meta["op"] == "lm_descent":
+        Ff, Jf = quad_funcs(meta["co"], meta["sparse"])
+        return Ff, Jf, np.array([meta["x0"]], dtype=float), meta["sparse"]
+    Ff, Jf = lm2_funcs(meta["p"])
+    return Ff, Jf, np.array(meta["x0"], dtype=float), False
+
+
+def drive_lm_rec(meta, K):
+    """for every iteration i < k <= K: (x_i, M_i, g_i, x_{i+1}) -- the points from runs with maxit = i (gradtol = 0), the system
+    (M_i, g_i) handed to LA.solve / spsolve from one instrumented run"""
+    import scipy.sparse.linalg as spl
+    S = solver_mod()
+    Ff, Jf, x0, sparse = _lm_family(meta)
+    xs = []
+    for i in range(K + 1):
+        with np.errstate(all="ignore"):
+            x, info = S.LM(Ff, x0.copy(), Jf, maxit=i, gradtol=0.0, nu0=meta["nu0"], sparse=sparse).solve()
+        if int(info["nfev"]) < i or not np.all(np.isfinite(np.asarray(x, dtype=float))):
+            break
+        xs.append(fl(x))
+    rec = _SolveRecorder(S.LA)
+    calls = rec.calls
+    if sparse:
+        real = spl.spsolve
+        def spsolve_rec(M, g, *a, **k):
+            calls.append((np.array(M.toarray(), dtype=float), np.array(g, dtype=float)))
+            return real(M, g, *a, **k)
+        ctxm = patched(S.spa.linalg, "spsolve", spsolve_rec)
+    else:
+        ctxm = patched(S, "LA", rec)
+    with ctxm, np.errstate(all="ignore"):
+        S.LM(Ff, x0.copy(), Jf, maxit=len(xs) - 1, gradtol=0.0, nu0=meta["nu0"], sparse=sparse).solve()
+    steps = []
+    for i, (M, g) in enumerate(calls[:len(xs) - 1]):
+        if not (np.all(np.isfinite(M)) and np.all(np.isfinite(g))):
+            break
+        steps.append((xs[i], [[float(v) for v in row] for row in np.atleast_2d(M)], [float(v) for v in np.ravel(g)], xs[i + 1]))
+    return steps
+
+
+def lm_residual_exact(meta, x):
+    """the user's residual vector at the float point x, in exact rationals, with the cancellation measure of its float evaluation"""
+    xf = [F(v) for v in x]
+    if meta["op"] == "lm_descent":
+        v = xf[0]
+        terms = [(F(a) * v * v, F(b) * v, F(c)) for a, b, c in meta["co"]]
+    else:
+        pp = meta["p"]
+        sg, a, b, c, d = F(pp.get("sigma", 1.0)), F(pp["a"]), F(pp["b"]), F(pp["c"]), F(pp["d"])
+        terms = [(sg * a * xf[1], -sg * a * xf[0] * xf[0]), (sg * b, -sg * xf[0]), (sg * c * xf[0] * xf[1], -sg * d)]
+    r = [sum(t) for t in terms]
+    cancels = any(sum(abs(u) for u in t) > 0 and abs(sum(t)) <= F(1, 10 ** 6) * sum(abs(u) for u in t) for t in terms)
+    return r, cancels
+
+
+def oracle_lm_descent(meta, steps):
+    """the property clause itself, on the implementation, in exact rationals: the objective 1/2|F|^2 never increases from one iterate to
+    the next; <s, g> > 0 for the step s of the recorded system; the step is taken iff the trial objective does not exceed the current one"""
+    for i, (x, M, g, x1) in enumerate(steps):
+        r, c0 = lm_residual_exact(meta, x)
+        r1, c1 = lm_residual_exact(meta, x1)
+        f, f1 = sum(t * t for t in r) / 2, sum(t * t for t in r1) / 2
+        if not (c0 or c1) and f1 > f * (1 + F(2, 10 ** 9)):
+            return "LM iteration %d INCREASED the objective: 1/2|F(x_%d)|^2 = %.17g -> %.17g (x = %s -> %s)" % (i + 1, i, float(f), float(f1), x, x1)
+        try:
+            s = np.linalg.solve(np.array(M, dtype=float), np.array(g, dtype=float))
+        except np.linalg.LinAlgError:
+            continue
+        if not np.all(np.isfinite(s)) or np.linalg.cond(np.array(M, dtype=float)) > 1e6:
+            continue
+        xt = fl(np.array(x, dtype=float) - s)
+        rt, ct = lm_residual_exact(meta, xt)
+        ft = sum(t * t for t in rt) / 2
+        sg_ = float(np.dot(s, np.array(g, dtype=float)))
+        if any(g) and sg_ <= 0:
+            return "LM iteration %d: the step s of the recorded system has <s, g> = %.3e <= 0 (not a descent direction)" % (i + 1, sg_)
+        if c0 or ct or abs(f - ft) <= F(1, 10 ** 9) * abs(f) or float(np.linalg.norm(s)) <= 1e-12 * float(np.linalg.norm(x)):
+            continue
+        moved = list(x1) != list(x)
+        if moved != (ft <= f):
+            return ("LM iteration %d %s a trial point with objective %.17g (current %.17g): the acceptance rule is not 'accept iff the objective does not increase'"
+                    % (i + 1, "ACCEPTED" if moved else "REJECTED", float(ft), float(f)))
+    return None
+
+
+def case_lm_descent(meta):
+    steps = drive_lm_rec(meta, meta["K"])
+    obs = clist(["(%s, %s, %s, %s)" % (cqvec(x), cqmat(M), cqvec(g), cqvec(x1)) for x, M, g, x1 in steps])
+    if meta["op"] == "lm_descent":
+        expr = "check_lm_descent1 %s %s" % (clist(["(%s, %s, %s)" % (cq(a), cq(b), cq(c)) for a, b, c in meta["co"]]), obs)
+        cell = "lm/descent/n1/%s/%s" % ("sparse" if meta["sparse"] else "dense", meta["cell"])
+    else:
+        pp = meta["p"]
+        expr = "check_lm_descent2 %s %s %s %s %s %s" % (cq(pp.get("sigma", 1.0)), cq(pp["a"]), cq(pp["b"]), cq(pp["c"]), cq(pp["d"]), obs)
+        cell = "lm/descent/n2/%s" % meta["cell"]
+    fail = oracle_lm_descent(meta, steps)
+    return Case(expr=expr, meta=meta, cell=cell, kind="EXACT", trivial=len(steps) < 1, impl_fail=fail, signature=SIG["lm_descent"] if fail else "")
+
+
+EXIT_CLASSES = collections.Counter()
+
+
+def case_exit(meta):
+    """which of the three exits (residual clause / |x| tol >= 1 clause / iteration cap) the run took: class computed here from the OBSERVED
+    point with numpy, compared with the class of the model's run; plus the postcondition of that exit on the observed point"""
+    pc = meta["op"] == "pcgls_exit"
+    x, k = (drive_pcgls if pc else drive_cgls)(meta, meta["maxit"], meta["tol"])
+    tol, n = meta["tol"], len(meta["x0"])
+    if pc:
+        PinvT = np.linalg.inv(np.array(meta["P"], dtype=float)).T
+        res = lambda v: PinvT @ ne_resid(meta["A"], meta["b"], 0.0, v)
+    else:
+        res = lambda v: ne_resid(meta["A"], meta["b"], meta["shift"], v)
+    s0, sx, nx = float(np.linalg.norm(res(meta["x0"]))), float(np.linalg.norm(res(x))), float(np.linalg.norm(x))
+    res_ok, normx = bool(sx <= tol * s0), bool(nx * tol >= 1)
+    cls = "R" if (k > 0 and res_ok) else ("X" if (k > 0 and normx) else "M")
+    EXIT_CLASSES[("pcgls/" if pc else "cgls/") + cls] += 1
+    fail = None
+    if cls == "M" and k != meta["maxit"]:
+        # a float run that stopped by a clause which then evaluates false on the returned rationals: only within rounding of the threshold
+        if not (sx <= 1.001 * tol * s0 + 1e-12 * s0 or nx * tol >= 0.999):
+            fail = "%s returned after k = %d < maxit = %d iterations although neither stopping clause holds at the returned point (|res| = %.3e, tol*|res0| = %.3e, |x|*tol = %.3g)" % (
+                "PCGLS" if pc else "CGLS", k, meta["maxit"], sx, tol * s0, nx * tol)
+    # first exit: the run cut after j < k iterations returns after exactly j iterations
+    if fail is None and 1 < k <= 6:
+        for j in range(1, k):
+            kj = (drive_pcgls if pc else drive_cgls)(dict(meta, history=None), j, tol)[1]
+            if kj != j:
+                fail = "run with maxit = %d returned after %d iterations, the full run after %d" % (j, kj, k)
+    if pc:
+        expr = "check_pcgls_exit %s %s %s %s %s %s %s %s %s %s %s %s" % (
+            cnat(n), cqmat(meta["A"]), cqvec(meta["b"]), cqvec(meta["x0"]), cqmat(meta["P"]), cqmat(frac_inverse(meta["P"])), cq(meta["shift"]),
+            cnat(meta["maxit"]), cq(tol), cnat(k), cbool(res_ok), cbool(normx))
+    else:
+        expr = "check_cgls_exit %s %s %s %s %s %s %s %s %s %s" % (
+            cnat(n), cqmat(meta["A"]), cqvec(meta["b"]), cqvec(meta["x0"]), cq(meta["shift"]), cnat(meta["maxit"]), cq(tol), cnat(k), cbool(res_ok), cbool(normx))
+    return Case(expr=expr, meta=meta, cell="%s/exit/%s/%s" % ("pcgls" if pc else "cgls", meta.get("form", "dense"), meta.get("exitcell", meta.get("stopcell", "tol"))),
+                trivial=not any(meta["b"]) and not any(meta["x0"]), kind="DECISION", impl_fail=fail,
+                signature=(SIG["pcgls"] if pc else SIG["cgls"]) if fail else "")
+
+
+def case_pcgls_as_cgls(meta):
+    """PCGLS started at x0 = z0 against CGLS of the preconditioned operator A P^-1 (shift 0) started at y0 = P z0: x_k = P^-1 y_k.
+    Model side: the model's CGLS on the composed operator; implementation side (metamorphic, no model): cuqi's own CGLS with callables"""
+    S = solver_mod()
+    K, n = meta["K"], len(meta["x0"])
+    obs = [drive_pcgls(meta, j, 0.0)[0] for j in range(K + 1)]
+    P = np.array(meta["P"], dtype=float); A = np.array(meta["A"], dtype=float)
+    y0 = [int(v) for v in (np.array(meta["P"], dtype=int) @ np.array(meta["x0"], dtype=int))]
+    Pinv = frac_inverse(meta["P"])
+    Pi = np.array([[float(v) for v in row] for row in Pinv])
+    op = lambda v, flag: (A @ (Pi @ v)) if flag == 1 else (Pi.T @ (A.T @ v))
+    fail = None
+    for j in range(min(K, 2) + 1):
+        with np.errstate(all="ignore"):
+            y, kj = S.CGLS(op, np.array(meta["b"], dtype=float), np.array(y0, dtype=float), j, 0.0, 0).solve()
+        xj = Pi @ np.asarray(y, dtype=float)
+        if not np.allclose(xj, np.array(obs[j], dtype=float), rtol=1e-6, atol=1e-6 * (1 + float(np.max(np.abs(obs[j]))))):
+            fail = "PCGLS iterate %d = %s differs from P^-1 * (CGLS iterate of the operator A P^-1 from y0 = P x0) = %s" % (j, obs[j], fl(xj))
+            break
+    expr = "check_pcgls_as_cgls %s %s %s %s %s %s %s" % (cnat(n), cqmat(meta["A"]), cqvec(meta["b"]), cqvec(y0), cqmat(meta["P"]), cqmat(Pinv),
+                                                         clist([cqvec(o) for o in obs]))
+    return Case(expr=expr, meta=meta, cell="pcgls/as-cgls/%s/%s/%s/%s" % (meta["shape"], meta["form"], meta["pkind"], meta["pinv"]),
+                trivial=not any(meta["b"]) and not any(meta["x0"]), kind="EXACT", impl_fail=fail, signature=SIG["pcgls"] if fail else "")
+
+
 BUILDERS = {
     "cgls_iters": case_cgls_iters, "cgls_solve": case_cgls_solve, "pcgls_iters": case_pcgls_iters, "pcgls_solve": case_pcgls_solve,
     "fista_runs": case_fista_runs, "fista_defaults": case_fista_defaults, "fista_conv": case_fista_conv, "lm_iters": case_lm_iters, "lm_trace": case_lm_trace, "lm_trace2": case_lm_trace2, "lm_conv1": case_lm_conv, "lm_conv2": case_lm_conv, "lm_conv3": case_lm_conv, "lm_convz": case_lm_conv,
     "minimize": case_minimize, "maximize": case_minimize, "lbfgsb": case_lbfgsb, "ls": case_ls,
+    "lm_descent": case_lm_descent, "lm_descent2": case_lm_descent, "cgls_exit": case_exit, "pcgls_exit": case_exit, "pcgls_as_cgls": case_pcgls_as_cgls,
 }
 
 
@@ -1887,7 +2060,28 @@ def metas(ctx):
         p = {"a": rng.randint(1, 5), "b": rng.randint(-2, 2), "c": rng.randint(0, 2), "d": rng.randint(-2, 2)}
         out.append({"op": "ls", "p": p, "x0": [rng.randint(-2, 2), rng.randint(-2, 2)], "method": method, "loss": loss, "with_jac": with_jac,
                     "tol": rng.choice([1e-6, 1e-8]), "maxit": rng.choice([1e4, 50, 200.0]), "cuqiarray": rng.random() < 0.3})
-    return out
+    # ---- third deepening round: cells DERIVED from the ones above (no new random draws, the stream above is unchanged) ----
+    derived = []
+    plain = lambda m: not m.get("history") and not m.get("omit") and "max_dim_inv" not in m
+    for i, m in enumerate([m for m in out if m["op"] == "lm_trace"]):
+        if ctx.thorough or i % 2 == 0:
+            derived.append(dict(m, op="lm_descent", K=min(m["K"], ctx.n(8, 16))))
+    for m in [m for m in out if m["op"] == "lm_trace2"]:
+        derived.append(dict(m, op="lm_descent2", K=min(m["K"], ctx.n(6, 12))))
+    for m in out:
+        if m["op"] in ("cgls_solve", "pcgls_solve") and plain(m):
+            derived.append(dict(m, op=m["op"].replace("solve", "exit")))
+        if (m["op"] == "pcgls_iters" and plain(m) and m["shift"] == 0 and all(float(v).is_integer() for v in m["x0"])
+                and all(float(v).is_integer() for row in m["P"] for v in row)):
+            derived.append(dict(m, op="pcgls_as_cgls", K=min(m["K"], 3)))
+    # the three exits, fixed (the model realises them in C16_exit_paths_nonvacuous): residual clause / |x| tol >= 1 / iteration cap
+    A3 = [[1, 0], [0, 2], [1, 1]]
+    for lab, bb, tol_, mx in [("fixed-R", [1, 2, 3], 1e-6, 10), ("fixed-X", [2.0 ** 30, 2.0 ** 31, 3 * 2.0 ** 30], 1e-6, 10), ("fixed-M", [1, 2, 3], 0.0, 1),
+                              ("fixed-M0", [1, 2, 3], 1e-6, 0)]:
+        base = {"A": A3, "b": bb, "x0": [0, 0], "shift": 0.0, "form": "dense", "shape": "over", "start": "zero", "tol": tol_, "maxit": mx, "exitcell": lab}
+        derived.append(dict(base, op="cgls_exit"))
+        derived.append(dict(base, op="pcgls_exit", P=[[2, 0], [1, 1]], pkind="triangular", pinv="explicit"))
+    return out + derived
 
 
 # (label, log2 sigma, coefficients (a, b, c) of the residuals a x^2 + b x + c already multiplied by sigma, x0, nu0)
@@ -1932,13 +2126,15 @@ def run(ctx):
     import random as _r
     cases = []
     LM_BRANCHES.clear()
+    EXIT_CLASSES.clear()
     with warnings.catch_warnings():
         warnings.simplefilter("ignore")
         for me in [W_PCGLS_SHIFT, W_MAXIMIZE_INFO, W_MIN_NOJAC, W_LM_NAN, W_LM_FLOOR, W_CGLS_NORMX, W_PCGLS_NORMX] + metas(ctx):
             cases.append(build_case(me, _r.Random(int(hashlib.sha1(json.dumps(me, sort_keys=True, default=str).encode()).hexdigest()[:8], 16))))
     # the LM traces are the expensive terms (~0.3 s of rational arithmetic per LM step): spread them evenly over the shards
-    heavy = [c for c in cases if c.meta.get("op") in ("lm_trace", "lm_trace2")]
-    light = [c for c in cases if c.meta.get("op") not in ("lm_trace", "lm_trace2")]
+    HEAVY_OPS = ("lm_trace", "lm_trace2", "lm_descent", "lm_descent2")
+    heavy = [c for c in cases if c.meta.get("op") in HEAVY_OPS]
+    light = [c for c in cases if c.meta.get("op") not in HEAVY_OPS]
     if heavy:
         every = max(1, len(light) // len(heavy))
         cases = []
@@ -1948,7 +2144,8 @@ def run(ctx):
                 cases.append(heavy.pop(0))
         cases += heavy
     ctx.note("LM trace branches visited (number of traces): %s" % dict(LM_BRANCHES))
-    return Result(cases=cases, rule=RULE, extra={"lm_trace_branches_visited": dict(LM_BRANCHES)},
+    ctx.note("CGLS/PCGLS exits taken (R residual clause, X |x| tol >= 1, M iteration cap): %s" % dict(EXIT_CLASSES))
+    return Result(cases=cases, rule=RULE, extra={"lm_trace_branches_visited": dict(LM_BRANCHES), "exit_classes": {k: v for k, v in EXIT_CLASSES.items()}},
                   assumptions=["float rounding is not modelled: CGLS/FISTA/LM iterates are compared with the model's exact rationals within 1e-9, PCGLS iterates within 1e-6 "
                                "(relative+absolute), converged points within 1e-6; projections and soft-thresholding are compared exactly on dyadic data",
                                "LA.norm(.)**2 is modelled as the exact sum of squares; tol/abstol/gradtol >= 0",
@@ -1993,6 +2190,8 @@ def classify(meta, detail):
         return SIG["fista_forms"] if "differ from the dense" in d else SIG["fista"]
     if op in ("prox_l1", "box", "nonneg"):
         return SIG[op]
+    if op.startswith("lm_descent"):
+        return SIG["lm_descent"]
     if op.startswith("lm"):
         if "non-finite" in d:
             return SIG["lm_nan"]
